@@ -27,3 +27,8 @@ def issues_as_objects(fn, args):
 def method_of_definition_dict(fn, args):
     from hed.models.definition_dict import DefinitionDict
     return fn(DefinitionDict.__new__(DefinitionDict), **args)
+
+
+def string_validator_method(fn, args):
+    from hed.validator.util.string_util import StringValidator
+    return _wrap(fn(StringValidator(), **args))
